@@ -188,9 +188,117 @@ theorem checkExclDualFn_sound (k : Nat) (ρ : Fin k → EMat d d) (p : Fin k →
     obtain ⟨hH, hpsd⟩ := hc
     refine ⟨isHermitian_sound _ hH, fun i => ?_, ?_⟩
     · have := psdCert_sound _ _ (hpsd i)
+      unfold exclDualSlack at this
       rwa [toM_sub, toM_smul] at this
     · rw [← re_trace]
       exact congrArg _ (Option.some.inj h)
   · exact absurd h (by simp)
+
+/-! ## Unambiguous exclusion: soundness of the core checkers -/
+
+theorem toM_sumStates (k : Nat) (ρ : Fin k → EMat d d) (p : Fin k → Rat) :
+    (sumStates k ρ p).toM = ∑ i, (((p i : Rat) : ℝ) : ℂ) • (ρ i).toM := by
+  unfold sumStates
+  rw [toM_sumMats]
+  exact Finset.sum_congr rfl fun i _ => toM_smul _ _
+
+theorem toM_unambRest (k : Nat) (M : Fin k → EMat d d) :
+    (unambRest k M).toM = 1 - ∑ i, (M i).toM := by
+  unfold unambRest
+  rw [toM_sub, toM_one, toM_sumMats]
+
+theorem unambZeroLhs_cast (k : Nat) (ρ : Fin k → EMat d d) (p : Fin k → Rat) (M : Fin k → EMat d d)
+    (i : Fin k) :
+    ((unambZeroLhs ρ p M i : Rat) : ℝ) = (((((p i : Rat) : ℝ) : ℂ) • (ρ i).toM) * (M i).toM).trace.re := by
+  unfold unambZeroLhs
+  rw [re_trace, toM_mul, toM_smul]
+
+theorem checkUnambExclPrimalFn_sound (k : Nat) (ρ : Fin k → EMat d d) (p : Fin k → Rat)
+    (M LM : Fin k → EMat d d) (LR : EMat d d) (hi : Rat)
+    (h : checkUnambExclPrimalFn k ρ p M LM LR = some hi) :
+    (∀ i, (M i).toM.PosSemidef) ∧ (1 - ∑ i, (M i).toM).PosSemidef ∧
+      (∀ i, (((((p i : Rat) : ℝ) : ℂ) • (ρ i).toM) * (M i).toM).trace.re = 0) ∧
+      ((∑ i, (((p i : Rat) : ℝ) : ℂ) • (ρ i).toM) * (1 - ∑ i, (M i).toM)).trace.re = (hi : ℝ) := by
+  unfold checkUnambExclPrimalFn at h
+  split at h
+  · next hc =>
+    simp only [Bool.and_eq_true, povmPsdOk, allFin_iff, decide_eq_true_eq] at hc
+    obtain ⟨⟨hpsd, hrest⟩, hz⟩ := hc
+    refine ⟨fun i => psdCert_sound _ _ (hpsd i), ?_, fun i => ?_, ?_⟩
+    · have := psdCert_sound _ _ hrest
+      rwa [toM_unambRest] at this
+    · rw [← unambZeroLhs_cast, hz i]; simp
+    · have hv : unambExclValueFn k ρ p M = hi := Option.some.inj h
+      rw [← hv]
+      unfold unambExclValueFn
+      rw [re_trace, toM_mul, toM_sumStates, toM_unambRest]
+  · exact absurd h (by simp)
+
+theorem toM_unambDualSlack (k : Nat) (ρ : Fin k → EMat d d) (p : Fin k → Rat) (N : EMat d d)
+    (a : Fin k → Rat) (i : Fin k) :
+    (unambDualSlack k ρ p N a i).toM
+      = N.toM + (((a i : Rat) : ℝ) : ℂ) • ((((p i : Rat) : ℝ) : ℂ) • (ρ i).toM)
+        - ∑ j, (((p j : Rat) : ℝ) : ℂ) • (ρ j).toM := by
+  unfold unambDualSlack
+  rw [toM_sub, toM_add, toM_smul, toM_smul, toM_sumStates]
+
+theorem checkUnambExclDualFn_sound (k : Nat) (ρ : Fin k → EMat d d) (p : Fin k → Rat) (N : EMat d d)
+    (a : Fin k → Rat) (LN : EMat d d) (LD : Fin k → EMat d d) (lo : Rat)
+    (h : checkUnambExclDualFn k ρ p N a LN LD = some lo) :
+    N.toM.PosSemidef ∧
+      (∀ i, (N.toM + (((a i : Rat) : ℝ) : ℂ) • ((((p i : Rat) : ℝ) : ℂ) • (ρ i).toM)
+        - ∑ j, (((p j : Rat) : ℝ) : ℂ) • (ρ j).toM).PosSemidef) ∧
+      (∑ j, (((p j : Rat) : ℝ) : ℂ) • (ρ j).toM).trace.re - N.toM.trace.re = (lo : ℝ) := by
+  unfold checkUnambExclDualFn at h
+  split at h
+  · next hc =>
+    simp only [Bool.and_eq_true, allFin_iff] at hc
+    obtain ⟨hN, hD⟩ := hc
+    refine ⟨psdCert_sound _ _ hN, fun i => ?_, ?_⟩
+    · have := psdCert_sound _ _ (hD i)
+      rwa [toM_unambDualSlack] at this
+    · have hv : unambDualBound k ρ p N = lo := Option.some.inj h
+      rw [← hv]
+      unfold unambDualBound
+      rw [Rat.cast_sub, re_trace, re_trace, toM_sumStates]
+  · exact absurd h (by simp)
+
+/-- the code's objective and the certified bound differ by `1 − Re tr(Σ p_i ρ_i)` -/
+theorem unambDualCodeObjective_eq (k : Nat) (ρ : Fin k → EMat d d) (p : Fin k → Rat) (N : EMat d d) :
+    unambDualCodeObjective N = unambDualBound k ρ p N + (1 - (sumStates k ρ p).trace.re) := by
+  unfold unambDualCodeObjective unambDualBound
+  ring
+
+/-! ### The arithmetic after the solve -/
+
+theorem ratAbs_cast (q : Rat) : ((ratAbs q : Rat) : ℝ) = |(q : ℝ)| := by
+  unfold ratAbs
+  split
+  · next hq =>
+    have : (q : ℝ) < 0 := by exact_mod_cast hq
+    rw [abs_of_neg this]; push_cast; rfl
+  · next hq =>
+    have : (0 : ℝ) ≤ (q : ℝ) := by exact_mod_cast (not_lt.mp hq)
+    rw [abs_of_nonneg this]
+
+theorem ratAbs_eq (q : Rat) : ratAbs q = |q| := by
+  have := ratAbs_cast q
+  rw [← Rat.cast_abs] at this
+  exact_mod_cast this
+
+theorem isclose_iff (a b : Rat) : isclose a b = true ↔ |a - b| ≤ 1 / 100000000 + 1 / 100000 * |b| := by
+  unfold isclose npAtol npRtol
+  rw [decide_eq_true_eq, ratAbs_eq, ratAbs_eq]
+
+theorem antidistTest_iff (v : Rat) : antidistTest v = true ↔ |v| ≤ 1 / 100000000 := by
+  unfold antidistTest
+  rw [isclose_iff]
+  simp
+
+theorem cqoPost_eq (n : Nat) (hn : n ≠ 0) (v : Rat) : cqoPost n v = v := by
+  unfold cqoPost
+  have : (n : Rat) ≠ 0 := by exact_mod_cast hn
+  field_simp
+  ring
 
 end Toq.Excl
